@@ -533,7 +533,7 @@ def run(tier, seed):
         for (f, n, k), r in ex.map(one, jobs):
             if n not in r.violated:
                 raise tlc.TLCError("model of the shipped code (%s) does not violate %s: property is vacuous" % (f, n))
-            shipped["%s:%s" % (f, n)] = "violated after %d states, %d steps" % (r.distinct, len(r.error_trace or []))
+            shipped["%s:%s" % (f, n)] = "violated (counterexample of %d states)" % len(r.error_trace or [])
     ck.cover(shipped_model=shipped)
     for k, names in WITNESSES.items():
         hit, _ = tlc.witnesses("MC_LlcpAddr.tla", "MC_LlcpAddr_%s_reach.cfg" % k, PID + "/w" + k, names, workers=2)
